@@ -553,7 +553,8 @@ impl<C: CrcCalculator> Encapsulator<C> {
             encap_status = EncapStatus::CompletedPkt(buffer_offset as u16);
         }
         // if a fragment of the rest fits in the buffer
-        else if buffer_len > FIXED_HEADER_LEN + FRAG_ID_LEN {
+        // (when only the crc remains, an intermediate packet would carry nothing)
+        else if buffer_len > FIXED_HEADER_LEN + FRAG_ID_LEN && pdu_len_remaining > 0 {
             let gse_len: usize;
 
             // the fragment is limited by the buffer and by the 12 bits GSE length
@@ -976,7 +977,8 @@ pub fn encap_frag_preview(
         pkt_len = buffer_offset as u16;
     }
     // if a fragment of the rest fits in the buffer
-    else if buffer_len > FIXED_HEADER_LEN + FRAG_ID_LEN {
+    // (when only the crc remains, an intermediate packet would carry nothing)
+    else if buffer_len > FIXED_HEADER_LEN + FRAG_ID_LEN && pdu_len_remaining > 0 {
         let gse_len: usize;
 
         // the fragment is limited by the buffer and by the 12 bits GSE length
